@@ -9,7 +9,9 @@ cd /repo || exit 2
 if [ -n "$(git status --porcelain)" ]; then echo "/repo not clean"; exit 2; fi
 if ! git apply --check "$PATCH" 2>/dev/null; then echo "patch does not apply to /repo HEAD"; exit 2; fi
 git apply "$PATCH"
-trap 'cd /repo && git checkout -- . && git clean -fdq -- . >/dev/null 2>&1' EXIT
+# evidence written while a seeded change is applied is not evidence about /repo
+EVBAK=$(mktemp -d /tmp/seedtest-ev.XXXXXX); cp -a /verif/evidence/. "$EVBAK"/
+trap 'cd /repo && git checkout -- . && git clean -fdq -- . >/dev/null 2>&1; cp -a "$EVBAK"/. /verif/evidence/; rm -rf "$EVBAK"' EXIT
 for c in "${CHECKS[@]}"; do
   out=$(cd /verif && VERIF_SEED=${VERIF_SEED:-1} timeout 1500 ./check "$c" quick 2>&1); rc=$?
   nv=$(echo "$out" | grep -c '^VIOLATION')
